@@ -66,25 +66,49 @@ Proof.
 Qed.
 
 (** ** the s-vector of [update] *)
+Definition par_tolR : R := Rlit 1 (-8).
+Lemma par_tolR_val : par_tolR = / 100000000.
+Proof. unfold par_tolR, Rlit. cbn. (rops; field). Qed.
+Lemma par_tolR_pos : 0 < par_tolR < 1.
+Proof. rewrite par_tolR_val. lra. Qed.
+Lemma par_tol_R : par_tol (O:=ROps) = par_tolR.
+Proof. reflexivity. Qed.
+(** either the deviation is resolvable (|k0 x k1| >= 1e-8), or the ray is exactly undeviated / retro-reflected
+    and not along the x axis.  (The gap 0 < |k0 x k1| < 1e-8 is covered by [near_parallel_surface_bound].) *)
 Definition nondegenerate (k0 k1 : V) : Prop :=
-  nrm (crs k0 k1) <> 0 \/ (nrm (crs k0 k1) = 0 /\ nrm (crs k0 xh) <> 0).
+  par_tolR <= nrm (crs k0 k1) \/ (nrm (crs k0 k1) = 0 /\ nrm (crs k0 xh) <> 0).
+
+Lemma s_vector_parallel (k0 k1 : V) : nrm (crs k0 k1) < par_tolR ->
+  s_vector (O:=ROps) k0 k1 = vdiv (crs k0 xh) (nrm (crs k0 xh)).
+Proof.
+  intros H. unfold s_vector. rewrite par_tol_R. rops.
+  assert (E : Rltb (nrm (crs k0 k1)) par_tolR = true) by (apply Rltb_true; exact H).
+  rewrite E. reflexivity.
+Qed.
+Lemma s_vector_generic (k0 k1 : V) : par_tolR <= nrm (crs k0 k1) ->
+  s_vector (O:=ROps) k0 k1 = vdiv (crs k0 k1) (nrm (crs k0 k1)).
+Proof.
+  intros H. unfold s_vector. rewrite par_tol_R. rops.
+  assert (E : Rltb (nrm (crs k0 k1)) par_tolR = false) by (apply Rltb_false; exact H).
+  rewrite E. reflexivity.
+Qed.
 
 Lemma s_vector_frame (k0 k1 : V) : unit3 k0 -> unit3 k1 -> nondegenerate k0 k1 ->
   let s := s_vector (O:=ROps) k0 k1 in unit3 s /\ dot s k0 = 0 /\ dot s k1 = 0.
 Proof.
-  intros H0 H1 [Hn|[Hz Hx]]; unfold s_vector; rops.
-  - assert (E : Reqb (nrm (crs k0 k1)) 0 = false) by (apply Reqb_false; exact Hn).
-    rewrite E. repeat split.
-    + apply normalize_unit. exact Hn.
-    + rewrite vdiv_dot by exact Hn. rewrite cross_perp_l. unfold Rdiv; (rops; ring).
-    + rewrite vdiv_dot by exact Hn. rewrite cross_perp_r. unfold Rdiv; (rops; ring).
-  - assert (E : Reqb (nrm (crs k0 k1)) 0 = true) by (apply Reqb_true; exact Hz).
-    rewrite E. repeat split.
+  generalize par_tolR_pos. intros Htol H0 H1 [Hn|[Hz Hx]]; cbv zeta.
+  - rewrite s_vector_generic by exact Hn.
+    assert (Hne : nrm (crs k0 k1) <> 0) by lra.
+    repeat split.
+    + apply normalize_unit. exact Hne.
+    + rewrite vdiv_dot by exact Hne. rewrite cross_perp_l. unfold Rdiv; (rops; ring).
+    + rewrite vdiv_dot by exact Hne. rewrite cross_perp_r. unfold Rdiv; (rops; ring).
+  - rewrite s_vector_parallel by lra. repeat split.
     + apply normalize_unit. exact Hx.
     + rewrite vdiv_dot by exact Hx. rewrite cross_perp_l. unfold Rdiv; (rops; ring).
     + rewrite vdiv_dot by exact Hx.
       (* k0 x k1 = 0 and |k0| = 1 give k1 = (k0.k1) k0 *)
-      generalize (norm0_zero _ Hz). clear E Hz Hx. unfold unit3 in *.
+      generalize (norm0_zero _ Hz). clear Hz Hx. unfold unit3 in *.
       v3d k0. v3d k1. vx_unfold. intros Ez. injection Ez as E1 E2 E3.
       assert (A : k1x = (k0x * k1x + k0y * k1y + k0z * k1z) * k0x) by nsatz.
       assert (B : k1y = (k0x * k1x + k0y * k1y + k0z * k1z) * k0y) by nsatz.
@@ -187,6 +211,71 @@ Section Surface.
   Qed.
 End Surface.
 
+(** ** the gap 0 < |k0 x k1| < 1e-8: the fallback frame is exact for k0 and off by at most |k0 x k1| for k1,
+       so one surface changes |E|^2 by at most the relative amount |k0 x k1| (< 1e-8) *)
+Lemma sq_nn (a : R) : 0 <= a * a.
+Proof. generalize (Rle_0_sqr a). unfold Rsqr. lra. Qed.
+Lemma mix_bound (d m x z : R) : - m <= d <= m -> 2 * d * (x * z) <= m * (x * x + z * z) /\ - (m * (x * x + z * z)) <= 2 * d * (x * z).
+Proof.
+  intros [Hl Hu].
+  assert (P1 : 0 <= (m - d) * ((x + z) * (x + z))) by (apply Rmult_le_pos; [lra|apply sq_nn]).
+  assert (P2 : 0 <= (m + d) * ((x - z) * (x - z))) by (apply Rmult_le_pos; [lra|apply sq_nn]).
+  assert (P3 : 0 <= (m - d) * ((x - z) * (x - z))) by (apply Rmult_le_pos; [lra|apply sq_nn]).
+  assert (P4 : 0 <= (m + d) * ((x + z) * (x + z))) by (apply Rmult_le_pos; [lra|apply sq_nn]).
+  split; nra.
+Qed.
+Lemma bound_core (d m X1 X2 Y1 Y2 Z1 Z2 : R) : d * d <= m * m -> 0 <= m -> m <= 1 ->
+  Rabs (- (d * d) * (Y1 * Y1 + Y2 * Y2) + 2 * d * (X1 * Z1 + X2 * Z2))
+  <= m * (X1 * X1 + X2 * X2 + (Y1 * Y1 + Y2 * Y2) + (Z1 * Z1 + Z2 * Z2)).
+Proof.
+  intros Hd Hm Hm1.
+  assert (Hdm : - m <= d <= m) by (split; nra).
+  destruct (mix_bound d m X1 Z1 Hdm) as [U1 L1]. destruct (mix_bound d m X2 Z2 Hdm) as [U2 L2].
+  assert (Hy : 0 <= Y1 * Y1 + Y2 * Y2) by (generalize (sq_nn Y1) (sq_nn Y2); lra).
+  assert (Hdd : d * d <= m) by nra.
+  assert (Hq : d * d * (Y1 * Y1 + Y2 * Y2) <= m * (Y1 * Y1 + Y2 * Y2)) by (apply Rmult_le_compat_r; assumption).
+  assert (Hq0 : 0 <= d * d * (Y1 * Y1 + Y2 * Y2)) by (apply Rmult_le_pos; [apply sq_nn|assumption]).
+  apply Rabs_le. split; lra.
+Qed.
+
+Theorem near_parallel_surface_bound (k0 k1 : V) (e : CV) :
+  unit3 k0 -> unit3 k1 -> nrm (crs k0 k1) < par_tolR -> nrm (crs k0 xh) <> 0 ->
+  Rabs (cv_abs2 (O:=ROps) (m3_apply (O:=ROps) (surface_matrix (O:=ROps) k0 k1 None) e) - cv_abs2 (O:=ROps) e)
+  <= nrm (crs k0 k1) * cv_abs2 (O:=ROps) e.
+Proof.
+  intros H0 H1 Hpar Hx. generalize par_tolR_pos. intros Htol.
+  rewrite surface_apply. unfold o_out, o_in. rewrite (s_vector_parallel k0 k1 Hpar).
+  set (s := vdiv (crs k0 xh) (nrm (crs k0 xh))).
+  assert (Hs : unit3 s) by (apply normalize_unit; exact Hx).
+  assert (Hs0 : dot s k0 = 0) by (unfold s; rewrite vdiv_dot by exact Hx; rewrite cross_perp_l; unfold Rdiv; (rops; ring)).
+  set (d := dot s k1).
+  set (m := nrm (crs k0 k1)) in *.
+  assert (Hm0 : 0 <= m) by (unfold m, Cx.norm3; rops; apply sqrt_pos).
+  assert (Hmm : m * m = 1 - dot k0 k1 * dot k0 k1).
+  { unfold m. rewrite norm_sq, lagrange. unfold unit3 in H0, H1. rewrite H0, H1. (rops; ring). }
+  assert (Hd : d * d <= m * m).
+  { generalize (parseval s k0 k1 Hs H0 Hs0). fold d. unfold unit3 in H1. rewrite H1, Hmm. intros P.
+    assert (0 <= dot (crs k0 s) k1 * dot (crs k0 s) k1) by nra. nra. }
+  rewrite cols_norm_expand, rows_apply. cbn [fst snd].
+  unfold unit3 in Hs, H1.
+  assert (Gb : dot (crs k1 s) (crs k1 s) = 1 - d * d).
+  { rewrite lagrange, H1, Hs, (dot_sym k1 s). fold d. (rops; ring). }
+  assert (Gab : dot s (crs k1 s) = 0) by (rewrite dot_sym; apply cross_perp_r).
+  assert (Gbc : dot (crs k1 s) k1 = 0) by apply cross_perp_l.
+  rewrite Hs, H1, Gb, Gab, Gbc. fold d.
+  rewrite (abs2_split e).
+  rewrite <- (parseval s k0 (re3 e) Hs H0 Hs0), <- (parseval s k0 (im3 e) Hs H0 Hs0).
+  set (X1 := dot s (re3 e)). set (X2 := dot s (im3 e)).
+  set (Y1 := dot (crs k0 s) (re3 e)). set (Y2 := dot (crs k0 s) (im3 e)).
+  set (Z1 := dot k0 (re3 e)). set (Z2 := dot k0 (im3 e)).
+  generalize (bound_core d m X1 X2 Y1 Y2 Z1 Z2 Hd Hm0 ltac:(lra)). intros B.
+  unfold re_dot, Cx.cabs2. rops. cbn [fst snd].
+  match goal with |- Rabs ?a <= ?b =>
+    replace a with (- (d * d) * (Y1 * Y1 + Y2 * Y2) + 2 * d * (X1 * Z1 + X2 * Z2)) by (rops; ring);
+    replace b with (m * (X1 * X1 + X2 * X2 + (Y1 * Y1 + Y2 * Y2) + (Z1 * Z1 + Z2 * Z2))) by (rops; ring) end.
+  exact B.
+Qed.
+
 (** ** lifted over any list of uncoated surfaces *)
 Fixpoint chain_ok (k : V) (surfs : list (V * option (M3 ROps))) : Prop :=
   match surfs with
@@ -226,6 +315,62 @@ Proof.
   induction surfs as [|[k' J] rest IH]; intros k P; cbn; [reflexivity|apply IH].
 Qed.
 
+(** ** every float-resolvable configuration: each surface is either resolvable (|k x k'| >= 1e-8) or takes the
+       fallback frame (ray not along x).  Intensity stays within (1 -+ 1e-8)^n over n uncoated surfaces. *)
+Lemma cv_abs2_nonneg (e : CV) : 0 <= cv_abs2 (O:=ROps) e.
+Proof. rewrite abs2_split. generalize (dot_nonneg (re3 e)) (dot_nonneg (im3 e)). lra. Qed.
+Definition surface_ok (k k' : V) : Prop := par_tolR <= nrm (crs k k') \/ nrm (crs k xh) <> 0.
+Lemma surface_two_sided (k k' : V) (e : CV) : unit3 k -> unit3 k' -> surface_ok k k' ->
+  (1 - par_tolR) * cv_abs2 (O:=ROps) e <= cv_abs2 (O:=ROps) (m3_apply (O:=ROps) (surface_matrix (O:=ROps) k k' None) e)
+  <= (1 + par_tolR) * cv_abs2 (O:=ROps) e.
+Proof.
+  intros Hk Hk' Hok. generalize par_tolR_pos (cv_abs2_nonneg e). intros Ht Hb.
+  destruct (Rle_or_lt par_tolR (nrm (crs k k'))) as [Hge|Hlt].
+  - rewrite (uncoated_surface_isometry k k' Hk Hk' (or_introl Hge)). nra.
+  - destruct Hok as [Hge|Hx]; [lra|].
+    generalize (near_parallel_surface_bound k k' e Hk Hk' Hlt Hx).
+    set (a := cv_abs2 (O:=ROps) (m3_apply (O:=ROps) (surface_matrix (O:=ROps) k k' None) e)).
+    set (b := cv_abs2 (O:=ROps) e) in *. set (m := nrm (crs k k')) in *.
+    intros B. assert (Hm0 : 0 <= m) by (unfold m, Cx.norm3; rops; apply sqrt_pos).
+    assert (Hmb : m * b <= par_tolR * b) by (apply Rmult_le_compat_r; lra).
+    unfold Rabs in B. destruct (Rcase_abs (a - b)); lra.
+Qed.
+Fixpoint chain_ok2 (k : V) (surfs : list (V * option (M3 ROps))) : Prop :=
+  match surfs with
+  | [] => True
+  | (k', J) :: rest => J = None /\ unit3 k' /\ surface_ok k k' /\ chain_ok2 k' rest
+  end.
+Theorem uncoated_trace_intensity_bounds : forall surfs k P e,
+  unit3 k -> chain_ok2 k surfs ->
+  (1 - par_tolR) ^ length surfs * cv_abs2 (O:=ROps) (m3_apply (O:=ROps) P e)
+    <= cv_abs2 (O:=ROps) (m3_apply (O:=ROps) (trace_P (O:=ROps) k surfs P) e)
+    <= (1 + par_tolR) ^ length surfs * cv_abs2 (O:=ROps) (m3_apply (O:=ROps) P e).
+Proof.
+  generalize par_tolR_pos. intros Ht.
+  induction surfs as [|[k' J] rest IH]; intros k P e Hk Hc.
+  - cbn. lra.
+  - cbn in Hc. destruct Hc as (HJ & Hk' & Hok & Hrest). subst J.
+    cbn [trace_P length pow].
+    specialize (IH k' (pol_update (O:=ROps) k k' None P) e Hk' Hrest).
+    unfold pol_update in IH. rewrite m3_apply_mul in IH.
+    generalize (surface_two_sided k k' (m3_apply (O:=ROps) P e) Hk Hk' Hok).
+    unfold pol_update.
+    set (a := cv_abs2 (O:=ROps) (m3_apply (O:=ROps) (trace_P (O:=ROps) k' rest (m3_mul (O:=ROps) (surface_matrix (O:=ROps) k k' None) P)) e)) in *.
+    set (q := cv_abs2 (O:=ROps) (m3_apply (O:=ROps) (surface_matrix (O:=ROps) k k' None) (m3_apply (O:=ROps) P e))) in *.
+    set (b := cv_abs2 (O:=ROps) (m3_apply (O:=ROps) P e)).
+    intros S.
+    assert (Hlo : 0 <= (1 - par_tolR) ^ length rest) by (apply pow_le; lra).
+    assert (Hhi : 0 <= (1 + par_tolR) ^ length rest) by (apply pow_le; lra).
+    destruct IH as [I1 I2]. destruct S as [S1 S2].
+    rewrite <- !tech_pow_Rmult.
+    split.
+    + apply Rle_trans with ((1 - par_tolR) ^ length rest * q); [|exact I1].
+      replace ((1 - par_tolR) * (1 - par_tolR) ^ length rest * b) with ((1 - par_tolR) ^ length rest * ((1 - par_tolR) * b)) by (rops; ring).
+      apply Rmult_le_compat_l; assumption.
+    + apply Rle_trans with ((1 + par_tolR) ^ length rest * q); [exact I2|].
+      replace ((1 + par_tolR) * (1 + par_tolR) ^ length rest * b) with ((1 + par_tolR) ^ length rest * ((1 + par_tolR) * b)) by (rops; ring).
+      apply Rmult_le_compat_l; assumption.
+Qed.
 (** ** launch field of a (normalised) polarization state *)
 Definition normalised (st : R * R * R * R) : Prop :=
   let '(ex, ey, _, _) := st in ex * ex + ey * ey = 1.
@@ -312,6 +457,20 @@ Proof.
   assert (Hid : m3_apply (O:=ROps) (m3_id (O:=ROps)) (field3d (O:=ROps) k st) = field3d (O:=ROps) k st).
   { destruct (field3d (O:=ROps) k st) as [[[e1 e2] [e3 e4]] [e5 e6]]. vx_unfold. split_eq; (rops; ring). }
   unfold intensity_pol, transverse. rewrite I1, I2, Hid. split; assumption.
+Qed.
+
+(** every input state, any lens whose surfaces are float-resolvable or take the fallback frame:
+    the final intensity is within (1 -+ 1e-8)^n of the launch intensity 1 *)
+Theorem uncoated_trace_intensity_within (k : V) surfs st :
+  launch_ok k -> chain_ok2 k surfs -> normalised st ->
+  (1 - par_tolR) ^ length surfs <= intensity_pol (O:=ROps) (trace_P (O:=ROps) k surfs (m3_id (O:=ROps))) k st
+    <= (1 + par_tolR) ^ length surfs.
+Proof.
+  intros Hk Hc Hst. destruct (launch_field_unit_transverse k st Hk Hst) as (Hu & _).
+  generalize (uncoated_trace_intensity_bounds surfs k (m3_id (O:=ROps)) (field3d (O:=ROps) k st) (proj1 Hk) Hc).
+  assert (Hid : m3_apply (O:=ROps) (m3_id (O:=ROps)) (field3d (O:=ROps) k st) = field3d (O:=ROps) k st).
+  { destruct (field3d (O:=ROps) k st) as [[[e1 e2] [e3 e4]] [e5 e6]]. vx_unfold. split_eq; (rops; ring). }
+  unfold intensity_pol. rewrite Hid, Hu. lra.
 Qed.
 
 (** ** unpolarized light = mean over any two orthogonal input states, for ANY accumulated matrix *)
